@@ -42,7 +42,7 @@ Definition dx_start (st : dxs) : dxs := mkDx (dx_inq st) (dx_hk st) (dx_k st) (d
 
 (* one byte of the CR-LF-normalised text, except a quote met inside quotes (which needs the next byte) *)
 Definition dx_step (comma eq : ascii) (st : dxs) (c : ascii) : dxs * list record :=
-  if dx_inq st then (dx_push c st, [])        (* LF included: since /repo ec53d6cbc also when nothing precedes it on its line *)
+  if dx_inq st then (dx_push c st, [])        (* LF included: since /repo 567ffc2e0 also when nothing precedes it on its line *)
   else if eqc c DQ then (dx_set_inq true st, [])
   else if eqc c LF then (dx_init, [dx_finish st])
   else if eqc c comma then (mkDx false false [] [] (S (dx_idx st)) (dx_put st) true, [])
